@@ -30,7 +30,7 @@ PROPS = {
         "engines": [storm()],
         "rule": "each evaluation is one (instruction, bank) pair compared bit-exactly (I80F48 bits): change of bank totals vs sum of changes of all positions in the instruction, plus the closed-world global sum at every commit; about a third of the worlds also carry Kamino / Solend / Drift pass-through banks so that venue deposits / withdrawals and their closures are reconciled too; distinct = (instruction kind, closures, sign of total change, dust abandoned) tuples",
         "assumptions": COMMON_ASSUMPTIONS + ["whole-account close may abandon < 1 share per side (the program's empty threshold); position closure < 0.0001 unit (DESIGN 9 F6)"],
-        "floors": {"quick": {"C16.liquidations_by_debtor_of_collateral_bank": 4, "scen.wipeout_collateral_fully_seized": 2, "ix_ok/Deposit": 500, "C02.closures/Withdraw": 20, "C02.closures/Repay": 10}},
+        "floors": {"quick": {"scen.close_bank_committed": 20, "scen.close_bank_probe_rejected": 200, "C16.liquidations_by_debtor_of_collateral_bank": 4, "scen.wipeout_collateral_fully_seized": 2, "ix_ok/Deposit": 500, "C02.closures/Withdraw": 20, "C02.closures/Repay": 10}},
     },
     "C03": {
         "engines": [storm()],
